@@ -882,6 +882,25 @@ func (e *Env) evalCall(n *ECall) (SVal, types.Type, error) {
 			return nil, nil, fmt.Errorf("sitearg: %s has %d arguments", s.V, len(rec.args))
 		}
 		return rec.args[ii], rec.argT[ii], nil
+	case "atcall":
+		// atcall("callee", k, expr): expr evaluated in the state just before the k-th call of callee on this path
+		s, ok := n.Args[0].(*EStr)
+		k, ok2 := n.Args[1].(*EInt)
+		if !ok || !ok2 || len(n.Args) != 3 {
+			return nil, nil, fmt.Errorf("atcall(\"callee\", k, expr)")
+		}
+		var kk int
+		fmt.Sscanf(k.V, "%d", &kk)
+		rec, have := e.st.callLog[fmt.Sprintf("%s#%d", s.V, kk)]
+		if !have || rec.pre == nil {
+			return nil, nil, fmt.Errorf("atcall: call %s#%d did not happen on this path (guard with happened)", s.V, kk)
+		}
+		ne := *e
+		if ne.live == nil {
+			ne.live = e.st
+		}
+		ne.st = rec.pre
+		return ne.eval(n.Args[2])
 	case "happened":
 		s, ok := n.Args[0].(*EStr)
 		k, ok2 := n.Args[1].(*EInt)
